@@ -95,8 +95,13 @@ func init() {
 		keep := l.M
 		l.M = replayed
 		replayed.Logs = keep.Logs
+		// whatever differs here - volumes, metadata, first usages - is a disagreement between the journal and the state
+		focus := w.Focus
+		w.Focus = nil
+		w.CheckTransactions(l, nil, 15, paginate.OrderAsc)
 		w.CheckAccounts(l, nil, 15)
 		w.CheckVolumes(l, nil, nil, false, 0, 15)
+		w.Focus = focus
 		l.M = keep
 	}
 }
